@@ -82,6 +82,16 @@ func genC15(t *rapid.T) *Case {
 		}
 		return c
 	}
+	if rapid.IntRange(0, 9).Draw(t, "overlap") == 0 {
+		// several element patterns (some compiled twice) that match the same element with different
+		// attribute and style rules: the four entry points must merge them the same way on every call
+		o := genC13Overlap(t)
+		c.Spec = o.Spec
+		for _, in := range o.Inputs[:rapid.IntRange(1, 4).Draw(t, "novl")] {
+			c.Input += in
+		}
+		return c
+	}
 	c.Spec = genSpec(t, nil)
 	m := BuildModel(c.Spec)
 	switch rapid.IntRange(0, 11).Draw(t, "inputKind") {
